@@ -44,6 +44,26 @@ def tableText (es : List Entry) : Nat × String :=
 def pickTable (C : Ctx) : String → Option (List Entry)
   | "gmt" => some C.gmt | "omt" => some C.omt | "imt" => some C.imt | "lcmt" => some C.lcmt | _ => none
 
+def showTok : Text.Tok → String
+  | .space => "sp" | .lparen => "(" | .rparen => ")" | .sign s => s!"s{s}" | .coeff q => s!"c{q}"
+  | .wedge => "w" | .blade i => s!"b{i}" | .unrecognized => "u" | .end_ => "e"
+
+def parseTok (t : String) : Option Text.Tok :=
+  if t == "sp" then some .space else if t == "(" then some .lparen else if t == ")" then some .rparen
+  else if t == "w" then some .wedge else if t == "u" then some .unrecognized else if t == "e" then some .end_
+  else if t.startsWith "s" then (t.drop 1).toString.toInt?.map .sign
+  else if t.startsWith "c" then (t.drop 1).toString.toInt?.map .coeff
+  else if t.startsWith "b" then (t.drop 1).toString.toNat?.map .blade
+  else none
+
+def parseTerm (t : String) : Option Text.Term :=
+  match t.splitOn ":" with
+  | [i, sc, c] => do
+      let i ← i.toNat?
+      let c ← c.toInt?
+      some { idx := i, isScalar := sc == "1", c := c }
+  | _ => none
+
 abbrev St := Std.HashMap String Ctx
 
 def showMat (m : Array (Array Rat)) : String := ";".intercalate (m.toList.map showMV)
@@ -143,6 +163,18 @@ def handle (st : St) (line : String) : St × String :=
         | some (s, bm) => (st, s!"{s} {bm}")
         | none => (st, "err ValueError")
       | none => (st, "err parse")
+  | ["TOKS", terms] =>
+      let ts : Option (List Text.Term) := if terms == "-" then some [] else (terms.splitOn ";").mapM parseTerm
+      match ts with
+      | some ts => (st, ",".intercalate ((Text.printToks ts ++ [Text.Tok.end_]).map showTok))
+      | none => (st, "err parse")
+  | ["PARSE", sidx, dims, toks] =>
+      match sidx.toNat?, dims.toNat?, (toks.splitOn ",").mapM parseTok with
+      | some sidx, some dims, some ts =>
+        match Text.runPos sidx 0 {} ts with
+        | .ok s => (st, "ok " ++ showInts ((List.range dims).map s.out))
+        | .error p => (st, s!"err {p}")
+      | _, _, _ => (st, "err parse")
   | ["KIND", a, b] =>
       match Kind.ofString a, Kind.ofString b with
       | some a, some b => (st, (promote a b).toString)
